@@ -1576,13 +1576,20 @@ func specTrustedInMarkdown(v any) bool {
 //@   ensures[C06] result == nil ==> called("markdownCodeBlockEscape") && wout(out) == cat(old(wout(out)), EscMDCode(lastArgStr("markdownCodeBlockEscape", 1), 0, len(lastArgStr("markdownCodeBlockEscape", 1)), spaces))
 //@   ensures[C09] result != nil && !wfailed(out) ==> called("toString") && result == lastErr("toString")
 
+// In a URL the value is first rendered as in HTML text and the result is HTML-
+// unescaped before it is percent-escaped: the unescaping undoes exactly what
+// showInHTML applies, so a value that skipped showInHTML would be decoded
+// without ever having been encoded (`lang=it&region=eu` would lose "&reg").
 //@ func (*renderer).showInURL
-//@   props C05 C13
+//@   props C05 C13 C07
 //@   opt writerprop C13
 //@   opt stable renderer
+//@   opt track showInHTML pathEscape queryEscape
 //@   requires env != nil && !wfailed(r.out)
 //@   ensures[C13] wfailed(r.out) ==> result != nil && result == werr(r.out)
 //@   ensures[C13] wonly(r.out)
+//@   ensures[C07] called("pathEscape") || called("queryEscape") ==> called("showInHTML")
+//@   ensures[C07] result == nil ==> called("pathEscape") || called("queryEscape")
 
 // Show hands the value to the show function of the context the lexer assigned
 // to the position (the context byte is decoded by decodeRenderContext, proved
